@@ -9,8 +9,26 @@ RULE_C03 = 'C03 profile: instances moved between allocations of different partit
 
 def run(tier, seed):
     spec = E.make_spec(PID, PROFILE_C03, RULE_C03)
+    # Loader glue for one manifest / one server record: Master/LoadApp.v, Props/C03Load.v, harness/props/loadapp.py
+    from . import loadapp
+    spec['trusted'] = list(spec['trusted']) + list(loadapp.TRUSTED)
+    spec['assumptions'] = list(spec['assumptions']) + list(loadapp.ASSUMPTIONS)
+    spec['table_sections'] = list(spec['table_sections']) + list(loadapp.SECTIONS)
+    inner = spec.get('extra')
+
+    def extra(r, cases, obs):
+        cov = inner(r, cases, obs) if inner else {}
+        u = loadapp.stage(r, seed, tier)
+        cov['extra_obligations'] = cov.get('extra_obligations', 0) + u.pop('loadapp_obligations')
+        cov.update(u)
+        return cov
+    spec['extra'] = extra
+    spec = E.with_master_stage(spec, PID, tier, seed)
     core.standard_run(PID, tier, seed, spec)
 
 
 def replay_case(case):
+    if isinstance(case, dict) and case.get('engine') == 'E-loadapp':
+        from . import loadapp
+        return loadapp.replay_case(case)
     return E.replay(PID, case)
